@@ -328,6 +328,8 @@ pub enum Val {
   Str(String),
   List(Vec<Val>),
   Ctx(Vec<(String, Val)>),
+  /// A temporal value in TCK form: (xsd type, text). Only its TCK round trip is compared.
+  Typed(String, String),
 }
 
 const STRING_ATOMS: [&str; 40] = [
@@ -343,7 +345,7 @@ pub fn gen_string(rng: &mut Rng) -> String {
   };
   let mut s = String::new();
   for _ in 0..n {
-    s.push_str(rng.pick(&STRING_ATOMS));
+    s.push_str(*rng.pick(&STRING_ATOMS));
   }
   s
 }
@@ -452,6 +454,7 @@ impl Val {
       Val::Str(s) => json!({"t": "str", "v": s}),
       Val::List(items) => json!({"t": "list", "v": items.iter().map(|i| i.to_plan()).collect::<Vec<_>>()}),
       Val::Ctx(entries) => json!({"t": "ctx", "v": entries.iter().map(|(k, v)| json!([k, v.to_plan()])).collect::<Vec<_>>()}),
+      Val::Typed(ty, text) => json!({"t": "typed", "ty": ty, "v": text}),
     }
   }
   pub fn from_plan(v: &Value) -> Val {
@@ -460,6 +463,7 @@ impl Val {
       "num" => Val::Num(v["v"].as_str().unwrap_or("0").to_string()),
       "str" => Val::Str(v["v"].as_str().unwrap_or("").to_string()),
       "list" => Val::List(v["v"].as_array().map(|a| a.iter().map(Val::from_plan).collect()).unwrap_or_default()),
+      "typed" => Val::Typed(v["ty"].as_str().unwrap_or("").to_string(), v["v"].as_str().unwrap_or("").to_string()),
       "ctx" => Val::Ctx(
         v["v"]
           .as_array()
@@ -478,6 +482,15 @@ impl Val {
       Val::Str(s) => feel_string(s),
       Val::List(items) => format!("[{}]", items.iter().map(|i| i.to_feel()).collect::<Vec<_>>().join(", ")),
       Val::Ctx(entries) => format!("{{{}}}", entries.iter().map(|(k, v)| format!("{}: {}", k, v.to_feel())).collect::<Vec<_>>().join(", ")),
+      Val::Typed(ty, text) => {
+        let f = match ty.as_str() {
+          "xsd:date" => "date",
+          "xsd:time" => "time",
+          "xsd:dateTime" => "date and time",
+          _ => "duration",
+        };
+        format!("{}({})", f, feel_string(text))
+      }
     }
   }
   /// TCK value DTO.
@@ -489,6 +502,7 @@ impl Val {
       Val::Str(s) => json!({"simple": {"type": "xsd:string", "text": s, "isNil": false}}),
       Val::List(items) => json!({"list": {"items": items.iter().map(|i| i.to_tck()).collect::<Vec<_>>(), "isNil": false}}),
       Val::Ctx(entries) => json!({"components": entries.iter().map(|(k, v)| json!({"name": k, "value": v.to_tck(), "isNil": false})).collect::<Vec<_>>()}),
+      Val::Typed(ty, text) => json!({"simple": {"type": ty, "text": text, "isNil": false}}),
     }
   }
   /// Does the decoded JSON `j` (plain rendering of /evaluate) denote this value?
@@ -532,6 +546,8 @@ impl Val {
         }
         Ok(())
       }
+      // the plain rendering of temporal values is not specified by the property: any JSON value will do
+      (Val::Typed(_, _), _) => Ok(()),
       (a, b) => Err(format!("{} came back as {}", a.kind(), describe(b))),
     }
   }
@@ -559,6 +575,10 @@ impl Val {
       Val::Str(v) => match simple {
         Some(s) if s.get("type") == Some(&J::Str("xsd:string".into())) && s.get("text") == Some(&J::Str(v.clone())) => Ok(()),
         _ => Err(format!("string {:?} came back as {}", v, describe(j))),
+      },
+      Val::Typed(ty, text) => match simple {
+        Some(s) if s.get("type") == Some(&J::Str(ty.clone())) && s.get("text") == Some(&J::Str(text.clone())) => Ok(()),
+        _ => Err(format!("{} {:?} came back as {}", ty, text, describe(j))),
       },
       Val::List(items) => match list.and_then(|l| l.get("items")) {
         Some(J::Arr(got)) if got.len() == items.len() => {
@@ -595,6 +615,7 @@ impl Val {
       Val::Str(_) => "string",
       Val::List(_) => "list",
       Val::Ctx(_) => "context",
+      Val::Typed(_, _) => "temporal",
     }
   }
   /// A short class of the value for signatures: kind + the "hardest" character class of strings in it.
@@ -628,6 +649,9 @@ impl Val {
         Val::Ctx(entries) => entries.iter().for_each(|(_, i)| hardest(i, worst, num_class)),
         _ => {}
       }
+    }
+    if let Val::Typed(ty, _) = self {
+      return format!("temporal:{}", ty);
     }
     let mut worst = 0u8;
     let mut num_class = 0u8;
